@@ -1,7 +1,360 @@
-import Quanto.Serial
-namespace Quanto
+/-
+C10 — serialization round trip.
 
-/-- placeholder until the serialization proofs land -/
+"The state_dict of any quantized model contains only plain tensors and strings; loading it yields
+a model with identical weight codes, scales, zero-points, qtypes and activation scales; saving
+again gives an equal state_dict."
+
+Layers (helpers in `Proofs/C10/`):
+* `Str.lean`  : `String.splitOn ","`, `String.trimAscii` characterised on `List Char`;
+* `Meta.lean` : `PyMeta.parse (PyMeta.str v) = some v` for every `v`;
+* `Dict.lean` : `sdGet` lookup lemmas, `QModuleSer.WellFormed`.
+-/
+import Proofs.C10.Dict
+namespace Quanto
+open Quanto.C10
+
+/-! ### T1/T2 : the metadata strings -/
+
+/-- digit level fact: Python/Lean `str` of an int is read back as the same int -/
+theorem C10_int_roundtrip (n : Int) : (toString n).toInt? = some n := by
+  rw [Int.toString_eq_repr]; exact Int.toInt?_repr n
+
+/-- kept from the first version of this file -/
 theorem C10_none_roundtrip : PyMeta.parse PyMeta.none.str = some .none := by decide
+
+/-- `ast.literal_eval (str v) = v` for every int, `None`, every list and every tuple of ints
+(including `[]`, `()` and the one-element tuple `(x,)`) -/
+theorem C10_meta_parse (v : PyMeta) : PyMeta.parse v.str = some v := meta_parse v
+
+/-! ### T3 : key sets -/
+
+theorem C10_qbytes_keys (pre : String) (q : QBytesSer) :
+    (q.flatten pre).map (·.1) =
+      [pre ++ "_data", pre ++ "_scale", pre ++ "qtype", pre ++ "axis", pre ++ "size",
+       pre ++ "stride"] := rfl
+
+theorem C10_packed_keys (pre : String) (p : PackedMeta) :
+    (p.flatten pre).map (·.1) =
+      [pre ++ "_data", pre ++ "bits", pre ++ "size", pre ++ "stride"] := rfl
+
+theorem C10_qbits_keys (pre : String) (q : QBitsSer) :
+    (q.flatten pre).map (·.1) =
+      [pre ++ "_data._data", pre ++ "_data.bits", pre ++ "_data.size", pre ++ "_data.stride",
+       pre ++ "_scale", pre ++ "_zeropoint", pre ++ "qtype", pre ++ "axis", pre ++ "group_size",
+       pre ++ "size", pre ++ "stride"] := by
+  simp [QBitsSer.flatten, PackedMeta.flatten, String.append_assoc]
+
+
+/-- key comparison reduces to comparing the suffixes after the common prefix -/
+theorem C10_key_inj (pre a b : String) : pre ++ a = pre ++ b ↔ a = b :=
+  String.append_right_inj pre
+
+theorem C10_keys_distinct_qbytes (pre : String) (q : QBytesSer) :
+    ((q.flatten pre).map (·.1)).Nodup := by
+  rw [C10_qbytes_keys]; simp
+
+theorem C10_keys_distinct_packed (pre : String) (p : PackedMeta) :
+    ((p.flatten pre).map (·.1)).Nodup := by
+  rw [C10_packed_keys]; simp
+
+theorem C10_keys_distinct_qbits (pre : String) (q : QBitsSer) :
+    ((q.flatten pre).map (·.1)).Nodup := by
+  rw [C10_qbits_keys]; simp
+
+/-! ### T4 : tensor-level round trips -/
+
+theorem C10_qbytes_roundtrip_in_context (pre : String) (q : QBytesSer) (before after : StateDict)
+    (h : ∀ e ∈ before, e.1 ∉ (q.flatten pre).map (·.1)) :
+    QBytesSer.unflatten pre (before ++ q.flatten pre ++ after) = some q := by
+  rw [C10_qbytes_keys] at h
+  have hk : ∀ k ∈ [pre ++ "_data", pre ++ "_scale", pre ++ "qtype", pre ++ "axis", pre ++ "size",
+      pre ++ "stride"], sdGet (before ++ q.flatten pre ++ after) k = sdGet (q.flatten pre ++ after) k := by
+    intro k hk
+    rw [List.append_assoc]
+    exact sdGet_append_of_not_mem _ _ _ (fun e he hek => h e he (hek ▸ hk))
+  unfold QBytesSer.unflatten
+  simp only [hk _ (by simp : pre ++ "_data" ∈ _), hk _ (by simp : pre ++ "_scale" ∈ _),
+    hk _ (by simp : pre ++ "qtype" ∈ _), hk _ (by simp : pre ++ "axis" ∈ _),
+    hk _ (by simp : pre ++ "size" ∈ _), hk _ (by simp : pre ++ "stride" ∈ _)]
+  cases q with | mk d s qt ax sz st =>
+  cases ax <;>
+    simp [QBytesSer.flatten, leafTensor, leafMeta, meta_parse, metaList, metaOptInt, optInt]
+
+theorem C10_qbytes_roundtrip (pre : String) (q : QBytesSer) :
+    QBytesSer.unflatten pre (q.flatten pre) = some q := by
+  simpa using C10_qbytes_roundtrip_in_context pre q [] [] (by simp)
+
+
+theorem C10_packed_roundtrip_in_context (pre : String) (p : PackedMeta) (before after : StateDict)
+    (h : ∀ e ∈ before, e.1 ∉ (p.flatten pre).map (·.1)) :
+    PackedMeta.unflatten pre (before ++ p.flatten pre ++ after) = some p := by
+  rw [C10_packed_keys] at h
+  have hk : ∀ k ∈ [pre ++ "_data", pre ++ "bits", pre ++ "size", pre ++ "stride"],
+      sdGet (before ++ p.flatten pre ++ after) k = sdGet (p.flatten pre ++ after) k := by
+    intro k hk
+    rw [List.append_assoc]
+    exact sdGet_append_of_not_mem _ _ _ (fun e he hek => h e he (hek ▸ hk))
+  unfold PackedMeta.unflatten
+  simp only [hk _ (by simp : pre ++ "_data" ∈ _), hk _ (by simp : pre ++ "bits" ∈ _),
+    hk _ (by simp : pre ++ "size" ∈ _), hk _ (by simp : pre ++ "stride" ∈ _)]
+  cases p with | mk d b sz st =>
+  simp [PackedMeta.flatten, leafTensor, leafMeta, meta_parse, metaList]
+
+theorem C10_packed_roundtrip (pre : String) (p : PackedMeta) :
+    PackedMeta.unflatten pre (p.flatten pre) = some p := by
+  simpa using C10_packed_roundtrip_in_context pre p [] [] (by simp)
+
+theorem C10_qbits_roundtrip_in_context (pre : String) (q : QBitsSer) (before after : StateDict)
+    (h : ∀ e ∈ before, e.1 ∉ (q.flatten pre).map (·.1)) :
+    QBitsSer.unflatten pre (before ++ q.flatten pre ++ after) = some q := by
+  rw [C10_qbits_keys] at h
+  have hk : ∀ k ∈ [pre ++ "_data._data", pre ++ "_data.bits", pre ++ "_data.size",
+      pre ++ "_data.stride", pre ++ "_scale", pre ++ "_zeropoint", pre ++ "qtype", pre ++ "axis",
+      pre ++ "group_size", pre ++ "size", pre ++ "stride"],
+      sdGet (before ++ q.flatten pre ++ after) k = sdGet (q.flatten pre ++ after) k := by
+    intro k hk
+    rw [List.append_assoc]
+    exact sdGet_append_of_not_mem _ _ _ (fun e he hek => h e he (hek ▸ hk))
+  unfold QBitsSer.unflatten PackedMeta.unflatten
+  simp only [String.append_assoc, String.reduceAppend]
+  simp only [hk _ (by simp : pre ++ "_data._data" ∈ _), hk _ (by simp : pre ++ "_data.bits" ∈ _),
+    hk _ (by simp : pre ++ "_data.size" ∈ _), hk _ (by simp : pre ++ "_data.stride" ∈ _),
+    hk _ (by simp : pre ++ "_scale" ∈ _), hk _ (by simp : pre ++ "_zeropoint" ∈ _),
+    hk _ (by simp : pre ++ "qtype" ∈ _), hk _ (by simp : pre ++ "axis" ∈ _),
+    hk _ (by simp : pre ++ "group_size" ∈ _),
+    hk _ (by simp : pre ++ "size" ∈ _), hk _ (by simp : pre ++ "stride" ∈ _)]
+  cases q with | mk p s z qt ax gs sz st =>
+  cases p with | mk d b psz pst =>
+  cases ax <;> cases gs <;>
+    simp [QBitsSer.flatten, PackedMeta.flatten, String.append_assoc, leafTensor, leafMeta,
+      meta_parse, metaList, metaOptInt, optInt]
+
+theorem C10_qbits_roundtrip (pre : String) (q : QBitsSer) :
+    QBitsSer.unflatten pre (q.flatten pre) = some q := by
+  simpa using C10_qbits_roundtrip_in_context pre q [] [] (by simp)
+
+
+/-! ### T5/T6 : module level -/
+
+/-- the keys written by `QModuleMixin._save_to_state_dict` -/
+theorem C10_module_keys (pre : String) (m : QModuleSer) :
+    (m.save pre).map (·.1) =
+      (match m.weight with
+       | .float _ => [pre ++ "weight"]
+       | .qbytes _ => [pre ++ "weight._data", pre ++ "weight._scale", pre ++ "weight.qtype",
+           pre ++ "weight.axis", pre ++ "weight.size", pre ++ "weight.stride"]
+       | .qbits _ => [pre ++ "weight._data._data", pre ++ "weight._data.bits",
+           pre ++ "weight._data.size", pre ++ "weight._data.stride", pre ++ "weight._scale",
+           pre ++ "weight._zeropoint", pre ++ "weight.qtype", pre ++ "weight.axis",
+           pre ++ "weight.group_size", pre ++ "weight.size", pre ++ "weight.stride"]) ++
+      (if m.bias.isSome then [pre ++ "bias"] else []) ++
+      [pre ++ "input_scale", pre ++ "output_scale", pre ++ "weight_qtype",
+       pre ++ "activation_qtype"] := by
+  cases m with | mk w b i o wq aq =>
+  cases w <;> cases b <;>
+    simp [QModuleSer.save, C10_qbytes_keys, C10_qbits_keys, String.append_assoc]
+
+theorem C10_keys_distinct_module (pre : String) (m : QModuleSer) :
+    ((m.save pre).map (·.1)).Nodup := by
+  rw [C10_module_keys]
+  cases m with | mk w b i o wq aq =>
+  cases w <;> cases b <;> simp
+
+
+/-- what the module-level lookups find in a saved module -/
+theorem C10_module_lookup (pre : String) (m : QModuleSer) :
+    sdGet (m.save pre) (pre ++ "weight_qtype") = some (.str (qtStr m.weightQtype)) ∧
+    sdGet (m.save pre) (pre ++ "activation_qtype") = some (.str (qtStr m.activationQtype)) ∧
+    sdGet (m.save pre) (pre ++ "input_scale") = some (.tensor m.inputScale) ∧
+    sdGet (m.save pre) (pre ++ "output_scale") = some (.tensor m.outputScale) ∧
+    sdGet (m.save pre) (pre ++ "bias") = m.bias.map .tensor ∧
+    sdGet (m.save pre) (pre ++ "weight") =
+      (match m.weight with | .float r => some (.tensor r) | _ => none) := by
+  cases m with | mk w b i o wq aq =>
+  cases w <;> cases b <;>
+    simp [QModuleSer.save, QBytesSer.flatten, QBitsSer.flatten, PackedMeta.flatten,
+      String.append_assoc]
+
+/-- loading what was saved gives the same module back: identical weight (codes, scale,
+zero-point, qtype, axis, group size, size, stride), bias, activation scales and qtypes -/
+theorem C10_module_roundtrip (pre : String) (m : QModuleSer) (wf : m.WellFormed) :
+    QModuleSer.load pre m.bias.isSome (m.save pre) = some m := by
+  obtain ⟨hwq, haq, hbits, hbytes⟩ := wf
+  obtain ⟨l1, l2, l3, l4, l5, l6⟩ := C10_module_lookup pre m
+  unfold QModuleSer.load
+  rw [l1, l2, l3, l4, l5, l6]
+  cases m with | mk w b i o wq aq =>
+  simp only at hwq haq hbits hbytes ⊢
+  rw [strQt_qtStr _ hwq, strQt_qtStr _ haq]
+  cases w with
+  | float r => cases b <;> simp [leafTensor]
+  | qbytes q =>
+    obtain ⟨t, rfl, ht2, ht4⟩ := hbytes q rfl
+    have hU : QBytesSer.unflatten (pre ++ "weight.")
+        (QModuleSer.save pre ⟨.qbytes q, b, i, o, some t, aq⟩) = some q := by
+      simpa [QModuleSer.save, List.append_assoc] using
+        C10_qbytes_roundtrip_in_context (pre ++ "weight.") q [] _ (by simp)
+    cases b <;> simp [leafTensor, hU, ht2, ht4]
+  | qbits q =>
+    have hU : QBitsSer.unflatten (pre ++ "weight.")
+        (QModuleSer.save pre ⟨.qbits q, b, i, o, wq, aq⟩) = some q := by
+      simpa [QModuleSer.save, List.append_assoc] using
+        C10_qbits_roundtrip_in_context (pre ++ "weight.") q [] _ (by simp)
+    rcases hbits q rfl with rfl | rfl <;> cases b <;> simp [leafTensor, hU]
+
+/-- load then save reproduces the state_dict -/
+theorem C10_resave (pre : String) (m : QModuleSer) (wf : m.WellFormed) (m' : QModuleSer)
+    (h : QModuleSer.load pre m.bias.isSome (m.save pre) = some m') :
+    m'.save pre = m.save pre := by
+  rw [C10_module_roundtrip pre m wf] at h
+  cases h; rfl
+
+theorem C10_qtStr_strQt (s : String) : qtStr (strQt s) = s := by
+  unfold strQt
+  split
+  · next h => rw [h]; rfl
+  · rfl
+
+/-- a `QBitsTensor` cannot be read out of the entries of a `QBytesTensor` … -/
+theorem C10_qbits_unflatten_qbytes (pre : String) (q : QBytesSer) (rest : StateDict)
+    (hr : sdGet rest (pre ++ "_zeropoint") = none) :
+    QBitsSer.unflatten pre (q.flatten pre ++ rest) = none := by
+  simp [QBitsSer.unflatten, PackedMeta.unflatten, QBytesSer.flatten, String.append_assoc,
+    leafTensor, hr]
+
+/-- … nor a `QBytesTensor` out of the entries of a `QBitsTensor` -/
+theorem C10_qbytes_unflatten_qbits (pre : String) (q : QBitsSer) (rest : StateDict)
+    (hr : sdGet rest (pre ++ "_data") = none) :
+    QBytesSer.unflatten pre (q.flatten pre ++ rest) = none := by
+  simp [QBytesSer.unflatten, QBitsSer.flatten, PackedMeta.flatten, String.append_assoc,
+    leafTensor, hr]
+
+/-- `C10_resave` needs no well-formedness: whenever loading a saved module succeeds (into a module
+whose bias-presence is not *less* than the saved one), saving the result reproduces the
+state_dict exactly. -/
+theorem C10_resave_strong (pre : String) (m : QModuleSer) (b : Bool) (m' : QModuleSer)
+    (hb : b = false → m.bias = none)
+    (h : QModuleSer.load pre b (m.save pre) = some m') :
+    m'.save pre = m.save pre := by
+  obtain ⟨l1, l2, l3, l4, l5, l6⟩ := C10_module_lookup pre m
+  unfold QModuleSer.load at h
+  rw [l1, l2, l3, l4, l5, l6] at h
+  clear l1 l2 l3 l4 l5 l6
+  cases m with | mk w bi i o wq aq =>
+  simp only at hb h
+  cases w with
+  | float r =>
+    cases b <;> cases bi <;> simp [leafTensor] at hb h <;> subst h <;>
+      simp [QModuleSer.save, C10_qtStr_strQt]
+  | qbytes q =>
+    cases hq : strQt (qtStr wq) with
+    | none => simp [hq] at h
+    | some t =>
+      have hqs : qtStr wq = t := by rw [← C10_qtStr_strQt (qtStr wq), hq]; rfl
+      have hU : QBytesSer.unflatten (pre ++ "weight.")
+          (QModuleSer.save pre ⟨.qbytes q, bi, i, o, wq, aq⟩) = some q := by
+        simpa [QModuleSer.save, List.append_assoc] using
+          C10_qbytes_roundtrip_in_context (pre ++ "weight.") q [] _ (by simp)
+      have hV : QBitsSer.unflatten (pre ++ "weight.")
+          (QModuleSer.save pre ⟨.qbytes q, bi, i, o, wq, aq⟩) = none := by
+        simp only [QModuleSer.save, List.append_assoc]
+        apply C10_qbits_unflatten_qbytes
+        cases bi <;> simp [String.append_assoc]
+      rw [hq] at h
+      by_cases ht : t = "qint2" ∨ t = "qint4" <;>
+      cases b <;> cases bi <;> simp [hU, hV, ht, leafTensor] at hb h <;> subst h <;>
+        simp [QModuleSer.save, C10_qtStr_strQt, hqs, qtStr_some]
+  | qbits q =>
+    cases hq : strQt (qtStr wq) with
+    | none => simp [hq] at h
+    | some t =>
+      have hqs : qtStr wq = t := by rw [← C10_qtStr_strQt (qtStr wq), hq]; rfl
+      have hU : QBitsSer.unflatten (pre ++ "weight.")
+          (QModuleSer.save pre ⟨.qbits q, bi, i, o, wq, aq⟩) = some q := by
+        simpa [QModuleSer.save, List.append_assoc] using
+          C10_qbits_roundtrip_in_context (pre ++ "weight.") q [] _ (by simp)
+      have hV : QBytesSer.unflatten (pre ++ "weight.")
+          (QModuleSer.save pre ⟨.qbits q, bi, i, o, wq, aq⟩) = none := by
+        simp only [QModuleSer.save, List.append_assoc]
+        apply C10_qbytes_unflatten_qbits
+        cases bi <;> simp [String.append_assoc]
+      rw [hq] at h
+      by_cases ht : t = "qint2" ∨ t = "qint4" <;>
+      cases b <;> cases bi <;> simp [hU, hV, ht, leafTensor] at hb h <;> subst h <;>
+        simp [QModuleSer.save, C10_qtStr_strQt, hqs, qtStr_some]
+
+/-- `str` is injective on the metadata values (corollary of `C10_meta_parse`) -/
+theorem C10_meta_str_injective (v w : PyMeta) (h : v.str = w.str) : v = w := by
+  have := C10_meta_parse v
+  rw [h, C10_meta_parse w] at this
+  exact (Option.some.inj this).symm
+
+/-! ### non-vacuity: concrete values
+
+`decide` below is kernel evaluation of a closed term — these are tests of the definitions and of
+the satisfiability of the hypotheses, not the theorems. `PyMeta.parse` itself does not reduce in
+the kernel (`String.splitOn` is defined by well-founded recursion), so the parse examples
+instantiate `C10_meta_parse`; the literal on the left is checked against `PyMeta.str` by `rfl`. -/
+
+example : (PyMeta.list [4096, 11008]).str = "[4096, 11008]" := by decide
+example : (PyMeta.tuple [11008, 1]).str = "(11008, 1)" := by decide
+example : (PyMeta.tuple [128]).str = "(128,)" := by decide
+example : (PyMeta.tuple []).str = "()" := by decide
+example : (PyMeta.list []).str = "[]" := by decide
+example : (PyMeta.int (-1)).str = "-1" := by decide
+example : PyMeta.parse "[4096, 11008]" = some (.list [4096, 11008]) := C10_meta_parse (.list [4096, 11008])
+example : PyMeta.parse "(11008, 1)" = some (.tuple [11008, 1]) := C10_meta_parse (.tuple [11008, 1])
+example : PyMeta.parse "(128,)" = some (.tuple [128]) := C10_meta_parse (.tuple [128])
+example : PyMeta.parse "()" = some (.tuple []) := C10_meta_parse (.tuple [])
+example : PyMeta.parse "[]" = some (.list []) := C10_meta_parse (.list [])
+example : PyMeta.parse "-1" = some (.int (-1)) :=
+  (by decide : (PyMeta.int (-1)).str = "-1") ▸ C10_meta_parse (.int (-1))
+example : PyMeta.parse "128" = some (.int 128) := C10_meta_parse (.int 128)
+
+/-- the state_dict entries of a group-wise int4 weight (sizes [4096, 11008], stride (11008, 1),
+axis 0, group 128) -/
+example : sampleQBits.flatten "w." =
+  [("w._data._data", .tensor "packed"), ("w._data.bits", .str "4"),
+   ("w._data.size", .str "[2048, 11008]"), ("w._data.stride", .str "(11008, 1)"),
+   ("w._scale", .tensor "scale"), ("w._zeropoint", .tensor "zeropoint"), ("w.qtype", .str "qint4"),
+   ("w.axis", .str "0"), ("w.group_size", .str "128"), ("w.size", .str "[4096, 11008]"),
+   ("w.stride", .str "[11008, 1]")] := by decide
+
+example : QBitsSer.unflatten "w." (sampleQBits.flatten "w.") = some sampleQBits :=
+  C10_qbits_roundtrip _ _
+
+example : (sampleModule4.save "fc.").map (·.1) =
+  ["fc.weight._data._data", "fc.weight._data.bits", "fc.weight._data.size",
+   "fc.weight._data.stride", "fc.weight._scale", "fc.weight._zeropoint", "fc.weight.qtype",
+   "fc.weight.axis", "fc.weight.group_size", "fc.weight.size", "fc.weight.stride", "fc.bias",
+   "fc.input_scale", "fc.output_scale", "fc.weight_qtype", "fc.activation_qtype"] := by decide
+
+/-- the hypothesis of `C10_module_roundtrip` is satisfiable (int4 and int8 modules) -/
+example : sampleModule4.WellFormed := by constructor <;> simp [sampleModule4]
+example : sampleModule8.WellFormed := by constructor <;> simp [sampleModule8]
+
+example : QModuleSer.load "fc." true (sampleModule4.save "fc.") = some sampleModule4 :=
+  C10_module_roundtrip "fc." sampleModule4 (by constructor <;> simp [sampleModule4])
+example : QModuleSer.load "fc." false (sampleModule8.save "fc.") = some sampleModule8 :=
+  C10_module_roundtrip "fc." sampleModule8 (by constructor <;> simp [sampleModule8])
+
+/-! ### the extra hypotheses are needed -/
+
+/-- a qtype literally named `"none"` is read back as `None`: `WellFormed.aq_ne_none` (and
+likewise `wq_ne_none`) cannot be dropped from `C10_module_roundtrip` -/
+example : QModuleSer.load "fc." false
+    (QModuleSer.save "fc." ⟨.float "w", none, "i", "o", none, some "none"⟩) ≠
+    some ⟨.float "w", none, "i", "o", none, some "none"⟩ := by decide
+
+/-- a weight kind inconsistent with `weight_qtype` is not loadable at all -/
+example : QModuleSer.load "fc." true
+    (QModuleSer.save "fc." { sampleModule4 with weightQtype := none }) = none := by decide
+
+/-- loading a state_dict that has a bias into a module without bias drops it: the
+`b = false → m.bias = none` hypothesis of `C10_resave_strong` cannot be dropped -/
+example : (QModuleSer.load "fc." false
+    (QModuleSer.save "fc." ⟨.float "w", some "b", "i", "o", none, none⟩)).map (·.save "fc.") ≠
+    some (QModuleSer.save "fc." ⟨.float "w", some "b", "i", "o", none, none⟩) := by decide
 
 end Quanto
